@@ -114,8 +114,18 @@ impl<'a> Ctx<'a> {
         Ok(())
     }
 
-    fn dfs(&mut self, depth: u64) -> R {
-        self.gen()?;
+    fn visit(&mut self, mode: &str) -> R {
+        if mode != "san" {
+            self.gen()?;
+        }
+        if mode != "gen" {
+            self.san_all()?;
+        }
+        Ok(())
+    }
+
+    fn dfs(&mut self, depth: u64, mode: &str) -> R {
+        self.visit(mode)?;
         if depth == 0 {
             return Ok(());
         }
@@ -124,18 +134,18 @@ impl<'a> Ctx<'a> {
             self.make(mv)?;
             let valid = g!("is_valid", self.board.is_valid());
             if valid {
-                self.dfs(depth - 1)?;
+                self.dfs(depth - 1, mode)?;
             }
             self.unmake()?;
         }
         Ok(())
     }
 
-    fn walk(&mut self, plies: u64, seed: u64, unmake_after: bool) -> R {
+    fn walk(&mut self, plies: u64, seed: u64, unmake_after: bool, mode: &str) -> R {
         let mut rng = StdRng::seed_from_u64(seed);
         let mut n = 0;
         for _ in 0..plies {
-            self.gen()?;
+            self.visit(mode)?;
             let legal = g!("generate_legal_moves", self.board.generate_legal_moves());
             if legal.is_empty() {
                 break;
@@ -144,12 +154,33 @@ impl<'a> Ctx<'a> {
             self.make(mv)?;
             n += 1;
         }
-        self.gen()?;
+        self.visit(mode)?;
         if unmake_after {
             for _ in 0..n {
                 self.unmake()?;
             }
         }
+        Ok(())
+    }
+
+    fn san_all(&mut self) -> R {
+        let id = self.id;
+        let legal = g!("generate_legal_moves", self.board.generate_legal_moves());
+        let mut rows = Vec::new();
+        for mv in legal {
+            let u = mv.to_uci_string();
+            let san = g!("uci_to_pgn", self.board.uci_to_pgn(&u));
+            let (san_s, back) = match san {
+                Ok(s) => {
+                    let b = g!("pgn_to_bb", self.board.pgn_to_bb(&s));
+                    (s, b.map(|m| m.to_uci_string()).unwrap_or_else(|_| "err".to_string()))
+                }
+                Err(e) => (format!("err:{}", Self::err_name(&e)), "".to_string()),
+            };
+            rows.push(json!([u, san_s, back]));
+        }
+        let sn = g!("snapshot", snap(&self.board));
+        self.out.emit(&json!({"c": id, "ev": "san_all", "rows": rows, "snap": sn}));
         Ok(())
     }
 
@@ -176,9 +207,9 @@ impl<'a> Ctx<'a> {
                 }
             }
             "unmake" => self.unmake(),
-            "dfs" => self.dfs(u64_of(op, "depth", 1)),
-            "walk" => self.walk(u64_of(op, "plies", 10), u64_of(op, "seed", 0), false),
-            "line" => self.walk(u64_of(op, "plies", 10), u64_of(op, "seed", 0), true),
+            "dfs" => { let m = str_of(op, "mode"); self.dfs(u64_of(op, "depth", 1), if m.is_empty() { "gen" } else { &m }) }
+            "walk" => { let m = str_of(op, "mode"); self.walk(u64_of(op, "plies", 10), u64_of(op, "seed", 0), false, if m.is_empty() { "gen" } else { &m }) }
+            "line" => { let m = str_of(op, "mode"); self.walk(u64_of(op, "plies", 10), u64_of(op, "seed", 0), true, if m.is_empty() { "gen" } else { &m }) }
             "find_uci" => {
                 let s = str_of(op, "s");
                 let r = g!("find_uci", self.board.find_uci(&s));
@@ -265,25 +296,7 @@ impl<'a> Ctx<'a> {
                 self.out.emit(&json!({"c": id, "ev": "uci_batch", "ok": ok, "changed": changed, "snap": sn}));
                 Ok(())
             }
-            "san_all" => {
-                let legal = g!("generate_legal_moves", self.board.generate_legal_moves());
-                let mut rows = Vec::new();
-                for mv in legal {
-                    let u = mv.to_uci_string();
-                    let san = g!("uci_to_pgn", self.board.uci_to_pgn(&u));
-                    let (san_s, back) = match san {
-                        Ok(s) => {
-                            let b = g!("pgn_to_bb", self.board.pgn_to_bb(&s));
-                            (s, b.map(|m| m.to_uci_string()).unwrap_or_else(|_| "err".to_string()))
-                        }
-                        Err(e) => (format!("err:{}", Self::err_name(&e)), "".to_string()),
-                    };
-                    rows.push(json!([u, san_s, back]));
-                }
-                let sn = g!("snapshot", snap(&self.board));
-                self.out.emit(&json!({"c": id, "ev": "san_all", "rows": rows, "snap": sn}));
-                Ok(())
-            }
+            "san_all" => self.san_all(),
             "perft" => {
                 let d = u64_of(op, "depth", 1) as usize;
                 let r = g!("perft", self.board.perft(d));
